@@ -128,7 +128,9 @@ PROPS.update({
         level_note='Floats as reals; float % assumed 0 <= r <= b; extents 0 or >= 1; heap typing; API-only writers.',
         functions=['Environments.SpaceWorld.__init__', 'Environments.PositionComponent.__init__',
                    'Environments.SpaceWorld.add_agent', 'Environments.SpaceWorld.remove_agent',
-                   'Environments.SpaceWorld.move', 'Environments.SpaceWorld.move_to'],
+                   'Environments.SpaceWorld.move', 'Environments.SpaceWorld.move_to',
+                   'Environments.DiscreteWorld.__init__', 'Environments.LineWorld.__init__',
+                   'Environments.GridWorld.__init__'],
         assumptions=SPACE_ASSUME),
     'C12': dict(
         level_text='Deductive proof (integers and reals): get_agents_at returns a fresh list that is sound, complete and in '
@@ -154,7 +156,8 @@ PROPS.update({
                    'coordinates outside the grid (argument order of the id call is part of the obligation).',
         level_note='Assumes the pandas contracts (column copy, iloc[i] = row i with all columns), engine row-major law.',
         functions=['Environments.discrete_grid_pos_to_id', 'Environments.DiscreteWorld.__init__',
-                   'Environments.DiscreteWorld.get_cell'],
+                   'Environments.DiscreteWorld.get_cell', 'Environments.LineWorld.__init__',
+                   'Environments.GridWorld.__init__'],
         assumptions=GRID_ASSUME),
 })
 
@@ -271,7 +274,8 @@ PROPS.update({
                    'collect() / agent / composite functions are assumed pure appenders; reserved record keys must not '
                    'collide with agent ids (stated precondition N3); the collector observes the state left by the '
                    "timestep's systems because its default priority -1 is below the default 0 (C01).",
-        functions=['Collectors.Collector.__init__', 'Collectors.AgentCollector.collect',
+        functions=['Collectors.Collector.__init__', 'Collectors.AgentCollector.__init__',
+                   'Collectors.AgentCollector.collect',
                    'Collectors.FileCollector.__init__', 'Collectors.FileCollector.execute',
                    'Collectors.FileCollector.write_records'],
         assumptions=['agentFunc / compositeFunc are pure functions of their argument',
@@ -366,5 +370,38 @@ for _cid, _fields in dict(C06=['_status', 'timestep'], C01=['execution_queue', '
                           C04=['agents'], C20=['_components', '_tag'], C19=['_tag_counter', '_tag_names'],
                           C14=['_parameters'], C17=['records', 'last_write'], C09=['cells']).items():
     PROPS[_cid].setdefault('scans', []).append(dict(kind='writers', table={f: WRITERS[f] for f in _fields}))
+
+# defaults the property statements rely on: (function, parameter) -> (source text of the default, properties)
+DEFAULTS = {
+    ('Core.System.__init__', 'priority'): ('0', ['C01', 'C17']),
+    ('Core.System.__init__', 'frequency'): ('1', ['C02']),
+    ('Core.System.__init__', 'start'): ('0', ['C02']),
+    ('Core.System.__init__', 'end'): ('maxsize', ['C02']),
+    ('Collectors.Collector.__init__', 'priority'): ('-1', ['C01', 'C17']),
+    ('Collectors.AgentCollector.__init__', 'priority'): ('-1', ['C01', 'C17']),
+    ('Collectors.FileCollector.__init__', 'priority'): ('-1', ['C01', 'C17']),
+    ('Collectors.FileCollector.__init__', 'filemode'): ("'a'", ['C17']),
+    ('Collectors.FileCollector.__init__', 'write_count'): ('0', ['C17']),
+    ('Collectors.FileCollector.__init__', 'clear_records_on_write'): ('True', ['C17']),
+    ('Core.Model.execute', 'n'): ('1', ['C02']),
+    ('Core.SystemManager.execute_systems', 'throw_error'): ('False', ['C06']),
+    ('Core.Environment.get_agents', 'tag'): ('None', ['C13']),
+    ('Core.Environment.get_random_agent', 'tag'): ('None', ['C13']),
+    ('Core.Environment.shuffle', 'tag'): ('None', ['C13']),
+    ('Core.Agent.__init__', 'tag'): ('None', ['C20']),
+    ('Core.Environment.get_agent', 'throw_error'): ('False', ['C04']),
+    ('Batching.batch_run', 'processes'): ('1', ['C15']),
+    ('Batching.batch_run', 'repetitions'): ('1', ['C15']),
+    ('Batching.batch_run', 'max_timesteps'): ('maxsize', ['C15']),
+    ('Batching.grid_search', 'mode'): ('ScoreMode.MIN', ['C16']),
+    ('Environments.SpaceWorld.__init__', 'wrap_env'): ('False', ['C08']),
+    ('Environments.DiscreteWorld.get_moore_neighbours', 'incl_center'): ('False', ['C10']),
+    ('Environments.DiscreteWorld.get_neumann_neighbours', 'incl_center'): ('False', ['C10']),
+    ('Environments.DiscreteWorld.get_neighbours', 'mode'): ("'moore'", ['C10']),
+}
+for _cid in PROPS:
+    PROPS[_cid].setdefault('scans', []).append(dict(kind='structure'))
+    if any(_cid in v[1] for v in DEFAULTS.values()):
+        PROPS[_cid]['scans'].append(dict(kind='defaults', table=DEFAULTS))
 
 NOT_APPLICABLE = {}
